@@ -104,6 +104,17 @@ def _brief(r) -> str:
 
 def schedules(entry, api: str, mode: str, max_dev: int):
     """Yield (schedule, default) pairs: uniform, first-three cube, <= max_dev deviations."""
+    if entry.get("big"):
+        for c in (1, 7, 4096, 8191, 8192, 8193, 16384):
+            yield (), c
+        for first in (1, 2, 3):
+            yield (first,), 8192
+        probe = faultio.ScheduleRaw(entry["data"])
+        parse(entry, api, mode, probe)
+        for i in range(min(len(probe.calls), 40)):
+            for s_ in (1, 8191):
+                yield (None,) * i + (s_,), None
+        return
     for c in range(1, 9):
         yield (), c
     for cube in itertools.product((1, 2, 3, 4), repeat=3):
@@ -166,6 +177,7 @@ def run(ctx) -> None:
         # two deviations are explored on the smaller streams only (cost is quadratic)
         pass
     jobs = [(size, n, max_dev if len(streams_map(size)[n]["data"]) < 260 else 1) for n in names]
+    jobs.sort(key=lambda j: -len(streams_map(size)[j[1]]["data"]))
     merged = pool.merge(pool.pmap(shard, jobs))
     ctx.add(merged)
     ctx.coverage.update(
